@@ -9,12 +9,12 @@ ID = 'C03'
 LEVEL = 'exploration'
 RULE = ('case = handler program (data, interpreted by vlib/programs.py): outcome in {str, bytes, empty, None, list / generator / custom iterable object (own '
         'close(), __iter__ returning a separate iterator) of str or bytes with leading empty items, generator or iterable failing at the first next(), file-like '
-        'with / without close and __iter__, with / without wsgi.file_wrapper, HTTPResponse / HTTPError returned, raised or yielded first, nested up to 3 deep, '
+        'with / without close and __iter__, real seekable streams already read up to an offset, with / without wsgi.file_wrapper, HTTPResponse / HTTPError returned, raised or yielded first, nested up to 3 deep, '
         'one response object shared by all requests, exception in the handler}; status set on the response or on the returned object from {100,101,102,103,199, '
         '200,201,204,205,299 Custom,304,404,418,500,999}; headers, cookies, optional explicit Content-Length; 0-3 before-hooks (ok / raise / raise a response) and '
         '0-3 after-hooks; custom error handlers for 404/405/418/500 returning str / bytes / generator or raising; request method GET, HEAD, POST, PUT, DELETE, '
-        'OPTIONS; path hits the route, misses it (404) or uses a verb that is not registered (405). Every program is served twice on one application (second '
-        'request with a longer URL). Oracle: independent PEP 3333 validator (exactly one start_response before the first chunk, status line, header list of '
+        'OPTIONS; path hits the route, misses it (404) or uses a verb that is not registered (405). Every program is served three times on one application (later '
+        'requests with a longer URL). Oracle: independent PEP 3333 validator (exactly one start_response before the first chunk, status line, header list of '
         '(str, str) Latin-1 without control characters, chunks are bytes), nothing escapes; empty body for HEAD / 1xx / 204 / 304; a Content-Length the program '
         'did not set on a response that may carry a body equals len(body); every tracked handler iterable whose items reached the framework is closed exactly '
         'once (never twice); handler / hook / first-next failures give 500 and the predicted status otherwise; hook log == before-hooks in registration order '
@@ -37,8 +37,8 @@ def case_st(draw):
         'resp_headers': draw(st.lists(st.tuples(st.sampled_from(['X-H', 'Etag', 'Content-Type', 'Vary']), HSAFE), max_size=2)),
         'cookies': draw(st.lists(st.tuples(st.sampled_from(['c1', 'c2']), st.sampled_from(['v', 'a b', 'é'])), max_size=2)),
         'explicit_cl': draw(st.sampled_from([None, None, None, 3, 0])),
-        'before': draw(st.lists(st.sampled_from(['ok', 'ok', 'ok', 'raise', 'raise_response']), max_size=3)),
-        'after': draw(st.integers(0, 3)),
+        'before': draw(st.lists(st.sampled_from(['ok', 'ok', 'ok', 'raise', 'raise_response', 'remove_self']), max_size=3)),
+        'after': draw(st.lists(st.sampled_from(['ok', 'ok', 'ok', 'remove_self', 'add_after']), max_size=3)),
         'handlers': draw(st.dictionaries(st.sampled_from(['404', '405', '418', '500']), st.sampled_from(['str', 'bytes', 'gen', 'raise', 'empty']), max_size=2)),
         'file_wrapper': draw(st.booleans()),
     }
@@ -86,6 +86,7 @@ def make_app(case):
         return obj
     app.route('/h', method=['GET', 'POST', 'PUT', 'DELETE', 'OPTIONS'], callback=handler)
     app.route('/w', method='PATCH', callback=handler)
+    hooks = {}
     for i, kind in enumerate(case['before']):
         def bh(i=i, kind=kind):
             log.append(('before', i, 'ombott.route' in app.request.environ))
@@ -93,10 +94,22 @@ def make_app(case):
                 raise RuntimeError('before hook failed')
             if kind == 'raise_response':
                 raise ombott.HTTPResponse('from hook', 418)
+            if kind == 'remove_self':           # run-once hook (lazy initialisation idiom)
+                app.remove_hook('before_request', hooks[('b', i)])
+        hooks[('b', i)] = bh
         app.add_hook('before_request', bh)
-    for i in range(case['after']):
-        def ah(i=i):
+
+    def late():
+        log.append(('after', 'late'))
+    for i, kind in enumerate(_after_kinds(case)):
+        def ah(i=i, kind=kind):
             log.append(('after', i))
+            if kind == 'remove_self':
+                app.remove_hook('after_request', hooks[('a', i)])
+            if kind == 'add_after' and not box.get('late_registered'):
+                box['late_registered'] = True
+                app.add_hook('after_request', late)
+        hooks[('a', i)] = ah
         app.add_hook('after_request', ah)
     for code, kind in case['handlers'].items():
         def eh(err, kind=kind, code=code):
@@ -118,9 +131,16 @@ def make_app(case):
     return box
 
 
+def _after_kinds(case):
+    a = case['after']
+    return ['ok'] * a if isinstance(a, int) else list(a)      # (older corpus files hold a count)
+
+
 def predict_status(case):
     h = case['handlers']
     for kind in case['before']:
+        if kind == 'remove_self':
+            continue
         if kind == 'raise':
             return 500 if h.get('500') != 'raise' else 500
         if kind == 'raise_response':
@@ -138,7 +158,11 @@ def predict_status(case):
 def check_case(ctx, case):
     box = make_app(case)
     nt = False
-    for reqno in (0, 1):
+    alive_b = list(range(len(case['before'])))
+    after_kinds = _after_kinds(case)
+    alive_a = list(range(len(after_kinds)))
+    late_from = None            # number of the request in which the late after-hook got registered
+    for reqno in (0, 1, 2):
         r, log, tr = serve(case, box, reqno)
         what = f'request {reqno} {case["method"]} target={case["target"]} program={ {k: case[k] for k in ("out", "resp_status", "before", "after", "handlers", "file_wrapper")} }'
         validate(r, what)
@@ -170,17 +194,31 @@ def check_case(ctx, case):
             if hasattr(o, 'close') and o.produced:
                 ctx.count('close_checked')
         # ---- hooks
+        # hooks present when the request started run once each (a hook that removes itself still lets the others run;
+        # a hook registered while the hooks are running is not judged for that request)
         want_log = []
         failed = False
-        for i, kind in enumerate(case['before']):
+        ran_b = []
+        for i in alive_b:
+            kind = case['before'][i]
             want_log.append(('before', i, False))
-            if kind != 'ok':
+            ran_b.append(i)
+            if kind in ('raise', 'raise_response'):
                 failed = True
                 break
+        alive_b = [i for i in alive_b if not (i in ran_b and case['before'][i] == 'remove_self')]
         if not failed and case['target'] == 'hit':
             want_log.append('handler')
-        want_log += [('after', i) for i in reversed(range(case['after']))]
+        if late_from is not None and late_from < reqno:
+            want_log.append(('after', 'late'))
+        for i in reversed(alive_a):
+            want_log.append(('after', i))
+            if after_kinds[i] == 'add_after' and late_from is None:
+                late_from = reqno
+        alive_a = [i for i in alive_a if after_kinds[i] != 'remove_self']
         got_log = [x for x in log if not (isinstance(x, tuple) and x[0] == 'error_handler')]
+        if late_from == reqno:
+            got_log = [x for x in got_log if x != ('after', 'late')]
         if got_log != want_log:
             raise CheckFailure(f'hook / handler call log {got_log}, expected {want_log}: {what}')
         ctx.count(f'status_{code // 100}xx')
@@ -197,8 +235,10 @@ def check_case(ctx, case):
             ctx.count('nested_response')
     if case['before'] or case['after']:
         ctx.count('with_hooks')
-    if any(b != 'ok' for b in case['before']):
+    if any(b in ('raise', 'raise_response') for b in case['before']):
         ctx.count('failing_before_hook')
+    if 'remove_self' in case['before'] or 'remove_self' in after_kinds or 'add_after' in after_kinds:
+        ctx.count('hook_list_changes_while_hooks_run')
     if case['handlers']:
         ctx.count('custom_error_handler')
     plain = k == 'str' and not case['before'] and not case['after'] and case['method'] == 'GET' and case['resp_status'] is None and case['target'] == 'hit'
